@@ -424,6 +424,7 @@ func checkStreams(c *vlib.Ctx, conns []*peerConn, ix *sentIndex, o streamOpts) s
 				d := -1
 				if owner != nil {
 					d = firstDiff(owner.frame, frame)
+					owner.seen++ // it did arrive (differing): not to be reported as missing as well
 				}
 				if owner != nil && d >= 22 && len(frame)-d >= 22 && frame[d] == 10 && frame[d+1] == 0 && ix.headerOfSome(frame[d:d+22]) != nil {
 					// the frame of one pack is cut short by the frame header of another one
